@@ -239,6 +239,23 @@ pub fn cycle_doc_v(types: &[Ty], lks: &[Link], g_in_defs: bool, variant: u32) ->
     format!("{HDR}<defs>{defs}</defs>{}{WITNESS}</svg>", entry(types[0]))
 }
 
+/// the cycle e1 … en (as `cycle_doc`), entered through an extra element e0 of the first element's kind that links to
+/// e1 with the cycle's last link kind (so the entry is not part of the cycle)
+pub fn tail_cycle_doc(types: &[Ty], lks: &[Link], variant: u32) -> Option<String> {
+    let n = types.len();
+    // e0 has the type of the last element and uses its link kind to reach e1 (index 1 … n are the cycle)
+    let entry_ty = types[n - 1];
+    let entry_lk = lks[n - 1];
+    if links(entry_ty, types[0]).is_empty() {
+        return None;
+    }
+    let mut defs = element_v(0, entry_ty, Some((entry_lk, 1)), variant);
+    for i in 0..n {
+        defs += &element_v(i + 1, types[i], Some((lks[i], 1 + (i + 1) % n)), variant);
+    }
+    Some(format!("{HDR}<defs>{defs}</defs>{}{WITNESS}</svg>", entry(entry_ty)))
+}
+
 /// all (type sequence, link sequence) cycles of length `len`
 pub fn enumerate_cycles(len: usize) -> Vec<(Vec<Ty>, Vec<Link>)> {
     let mut out = vec![];
@@ -404,6 +421,18 @@ pub fn search(tier: &str, seed: u64, s: &mut Search) {
                 s.case(&fam, &key, matches!(&out, Outcome::Answer(a) if a.starts_with("ok")));
                 check_output(s, &format!("len{}", len), &key, &out, &mut wk);
             }
+        }
+    }
+    // a tail that leads INTO a cycle: e0 -> e1 -> … -> ek -> e1 (walks that only remember where they started never end)
+    for (t, l) in enumerate_cycles(if tier == "thorough" { 3 } else { 2 }).into_iter().chain(enumerate_cycles(3).into_iter().filter(|(t, _)| t.iter().all(|x| *x == t[0])).take(400)) {
+        for variant in [0u32, 1] {
+            let svg = tail_cycle_doc(&t, &l, variant);
+            let Some(svg) = svg else { continue };
+            let sig: Vec<String> = t.iter().zip(l.iter()).map(|(a, b)| format!("{:?}:{}", a, b.name())).collect();
+            let key = format!("tail into cycle [{}] v{} {}", sig.join(" > "), variant, svg);
+            let out = wk.run(&format!("cycle {}", hex_encode(svg.as_bytes())), timeout);
+            s.case("tail-into-cycle", &key, matches!(&out, Outcome::Answer(a) if a.starts_with("ok")));
+            check_output(s, "tail", &key, &out, &mut wk);
         }
     }
     // random graphs with mixed kinds, up to 12 elements, out-degree up to 2
